@@ -22,3 +22,5 @@ BOUNDS = {
 }
 OUTSIDE = 'what the kernel does after execvpe(): pipes, end-of-file on redirected streams, exit codes of real child processes, descriptor inheritance (kernel behaviour: not applicable to solver-based checking, DESIGN section 4); longer argument vectors'
 ASSUMPTIONS = ['clang++-14 -O1 IR of src/Process.cpp (Arguments::read/nextChar, Private::splitCommandLine only are executed), src/String.cpp, src/Memory.cpp']
+
+TECHNIQUE = 'solver-based bounded symbolic execution of clang-14 LLVM IR for option parsing and command-line splitting (symbolic argument bytes, z3, native replay); the exec-boundary unit runs the real Process::open/exit on stubbed vfork/execvpe/_exit with concrete arguments (enumeration of the call forms; one symbolic exit code)'
